@@ -247,8 +247,15 @@ def _run_ch(pid: str, ob: Ob):
                 if good:
                     r["validated"] += 1
                 elif good is False:
-                    r["verdict"] = "inconclusive"
-                    r["detail"] = "concrete execution of the reachability witness disagrees with the symbolic run: " + detail
+                    # the harness, run concretely on the real code, fails on this input although the symbolic run passed
+                    # (CrossHair replaces some library behaviour while tracing, e.g. functools.lru_cache): an ordinary
+                    # counterexample - replay it the usual way and report it only if it reproduces
+                    msg = f"false when calling {m.group('call').strip()} (which returns {detail})"
+                    ok, path, rdetail = _replay_ch(pid, ob, msg)
+                    r["replay"], r["reproduced"], r["replay_detail"] = path, ok, rdetail
+                    r["verdict"] = "violated" if ok else "inconclusive"
+                    r["detail"] = msg + " [found by the concrete execution of the reachability witness]"
+                    r["validated"] += 1 if ok else 0
         else:
             r["witness"] = None
             if r["verdict"] == "holds":
